@@ -43,6 +43,26 @@ func main() {
 		fmt.Printf("UNDECIDED property=%s load failed: %v\n", *prop, err)
 		os.Exit(2)
 	}
+	if *dump == "pinned" {
+		out := map[string][]string{}
+		for _, f := range P.RepoFns {
+			var ns []string
+			for _, p := range f.Params {
+				ns = append(ns, p.Name())
+			}
+			out[short(f.String())] = ns
+			if len(f.FreeVars) > 0 {
+				var fs []string
+				for _, v := range f.FreeVars {
+					fs = append(fs, v.Name())
+				}
+				out["free|"+short(f.String())] = fs
+			}
+		}
+		b, _ := json.MarshalIndent(out, "", " ")
+		fmt.Println(string(b))
+		return
+	}
 	if *list {
 		for _, f := range P.RepoFns {
 			fmt.Println(short(f.String()))
